@@ -1630,7 +1630,7 @@ def gen_typed(seed, idbase=0, kt="u64", nb=("BucketsSize", 1), nops=250, name="t
     return s
 
 
-GOLDEN_KINDS = ["small", "large", "many", "tiny1", "tiny4"]
+GOLDEN_KINDS = ["small", "large", "many", "tiny1", "tiny4", "big"]
 
 
 def gen_golden(kind, kt, idbase=0):
@@ -1646,6 +1646,10 @@ def gen_golden(kind, kt, idbase=0):
         # tables with fewer than 8 buckets: the bitmap is a single byte behind the heads
         nb, nkeys = ["BucketsSize", int(kind[4:])], 12
         vl = [0, 3, 14, 15, 100]
+    elif kind == "big":
+        # records above 128 KiB: slot-size and length fields of three bytes
+        nb, nkeys = ["BucketsSize", 8], 7
+        vl = [140000, 131000, 200000, 50, 3, 130939]
     elif kind == "large":
         nb, nkeys = ["BucketsSize", 64], 24
         vl = [1100, 2000, 3000, 5000, 1017, 1021]
@@ -1673,9 +1677,17 @@ def gen_golden(kind, kt, idbase=0):
         s.op("del", h=1, k=k)
         mem.pop(k, None)
 
-    for k in keys:
-        put(k, rng.choice(vids))
-    if kind.startswith("tiny"):
+    for i, k in enumerate(keys):
+        put(k, vids[i % len(vids)] if kind == "big" else rng.choice(vids))
+    if kind == "big":
+        # no overwrite (the pinned release cannot relocate a key record, D5): deletes and new keys only
+        for k in rng.sample(keys, 2):
+            dele(k)
+        for k in keys:
+            if k not in mem:
+                put(k, vids[3])
+                break
+    elif kind.startswith("tiny"):
         for k in rng.sample(keys, 5):
             dele(k)
         for k in rng.sample(keys, 4):
